@@ -848,7 +848,7 @@ def file_metadata_tree(rng):
         if rng.random() < 0.3:
             el.append((6, (T_I32, rng.randrange(0, 22))))
         if rng.random() < 0.3:
-            el.append((10, (T_STRUCT, [(rng.choice([1, 5, 8, 10]), (T_STRUCT, []))])))
+            el.append((10, logical_type_tree(rng)))
         schema.append(el)
     rgs = []
     for g in range(rng.choice([0, 1, 2])):
@@ -1038,6 +1038,46 @@ def gen_repeated_fields(rng, tier):
     return cases
 
 
+def logical_type_tree(rng):
+    """LogicalType union: every member carquet parses, with its parameters (time units 1 / 2 / 3)"""
+    k = rng.choice([1, 2, 3, 4, 5, 6, 7, 8, 10, 11, 12, 13, 14, 15, 16])
+    body = []
+    if k == 5:
+        body = [(1, (T_I32, rng.randrange(0, 10))), (2, (T_I32, rng.randrange(1, 38)))]
+    elif k in (7, 8):
+        body = [(1, (rng.choice([T_TRUE, T_FALSE]), None)), (2, (T_STRUCT, [(rng.choice([1, 2, 3, 4]), (T_STRUCT, []))]))]
+    elif k == 10:
+        body = [(1, (T_BYTE, rng.choice([8, 16, 32, 64]))), (2, (rng.choice([T_TRUE, T_FALSE]), None))]
+    return (T_STRUCT, [(k, (T_STRUCT, body))])
+
+
+def gen_count_limits(rng, tier):
+    """list counts at the parser's limits (CARQUET_MAX_*: schema 10000, row groups 100000, columns 10000, key-values
+    10000, encodings / path / encoding stats 100): limit - 1, limit, limit + 1, each followed by that many minimal
+    elements so that the 'count exceeds the remaining data' test does not answer first"""
+    cases = []
+
+    def lst(et, n):
+        return (T_LIST, (et, [[] if et == T_STRUCT else (0 if et == T_I32 else b"")] * n))
+
+    def fm(fields):
+        return tc_value((T_STRUCT, [(1, (T_I32, 1))] + fields))
+
+    def col(meta_fields):
+        return (4, (T_LIST, (T_STRUCT, [[(1, (T_LIST, (T_STRUCT, [[(2, (T_I64, 4)), (3, (T_STRUCT, meta_fields))]])))]])))
+
+    for d in (-1, 0, 1):
+        cases.append(fm([(2, lst(T_STRUCT, 10000 + d))]))
+        cases.append(fm([(4, lst(T_STRUCT, 100000 + d))]))
+        cases.append(fm([(5, lst(T_STRUCT, 10000 + d))]))
+        cases.append(fm([(4, (T_LIST, (T_STRUCT, [[(1, lst(T_STRUCT, 10000 + d))]])))]))
+        cases.append(fm([col([(2, lst(T_I32, 100 + d))])]))
+        cases.append(fm([col([(3, lst(T_BIN, 100 + d))])]))
+        cases.append(fm([col([(8, lst(T_STRUCT, 10000 + d))])]))
+        cases.append(fm([col([(13, lst(T_STRUCT, 100 + d))])]))
+    return [Case("thrift_fm", 0, 0, None, c, tag="limits") for c in cases]
+
+
 def gzip_member(c, level=6):
     co = zlib.compressobj(level, zlib.DEFLATED, 31)
     return co.compress(c) + co.flush()
@@ -1142,16 +1182,55 @@ def gen_nesting_suite(rng, tier):
 
 
 def gen_bitreader(rng, n):
-    return [Case("bitreader", rng.randrange(0, 65), 0, None, rb(rng, rng.randrange(0, 40)), tag="random") for _ in range(n)]
+    """bit reader, raw bit-unpack kernels (inside their contract: packed_size bytes present) and the Thrift decoder
+    primitives the two parsers do not call (double, uuid, allocated string, set header, skip_field, init_reader)"""
+    cases = []
+    for i in range(n):
+        r = i % 10
+        if r < 2:
+            cases.append(Case("bitreader", rng.randrange(0, 65), 0, None, rb(rng, rng.randrange(0, 40)), tag="random"))
+        elif r < 4:
+            w = rng.choice(list(range(0, 33)))
+            c = rng.choice([0, 1, 7, 8, 9, 15, 16, 17, 32, 33, rng.randrange(0, 70)])
+            cases.append(Case("bitunpack", w, c, None, rb(rng, (c * w + 7) // 8 + rng.choice([0, 0, 1, 5])), tag="random"))
+        else:
+            kind = rng.random()
+            if kind < 0.4:
+                d = tc_value(rand_tree(rng, 3, T_STRUCT))
+                if rng.random() < 0.6 and d:
+                    m = mutations(rng, d, 8)
+                    d = rng.choice(m) if m else d
+                tag = "mut"
+            elif kind < 0.7:
+                # near-valid: doubles, uuids, strings with hostile lengths, set headers with hostile counts
+                d = bytearray()
+                for _ in range(rng.randrange(1, 5)):
+                    d += rng.choice([rb(rng, 8), rb(rng, 16), uleb(rng.choice([0, 1, 5, I31 - 1, I31, I32 - 1, I63])) + rb(rng, rng.randrange(0, 6)),
+                                     bytes([0xF0 | rng.randrange(16)]) + uleb(rng.choice([0, 3, 16, I31 - 1, I31, I64 - 1])),
+                                     bytes([rng.randrange(16) << 4 | rng.randrange(16)])])
+                d, tag = bytes(d), "grammar"
+            else:
+                d, tag = rb(rng, rng.randrange(0, 60)), "random"
+            cases.append(Case("thrift_prim", rng.randrange(0, 64), rng.randrange(0, 50), None, d, tag=tag))
+    return cases
 
 
 FAMILIES = [("rle", gen_rle, 0.22), ("plain", gen_plain, 0.13), ("bss", gen_bss, 0.06), ("delta", gen_delta, 0.2),
-            ("dict", gen_dict, 0.1), ("codec", gen_codec, 0.15), ("thrift", gen_thrift, 0.13), ("bitreader", gen_bitreader, 0.01)]
+            ("dict", gen_dict, 0.1), ("codec", gen_codec, 0.15), ("thrift", gen_thrift, 0.12), ("bitreader", gen_bitreader, 0.02)]
 
 ALL_OPS = ["thrift_fm", "thrift_ph", "rle_all", "rle_stream", "rle_levels", "rle_levels_pref",
            "plain_bool", "plain_i32", "plain_i64", "plain_i96", "plain_f32", "plain_f64", "plain_ba", "plain_flba", "plain_disp",
            "delta_i32", "delta_i64", "delta_len", "delta_str", "bss_f32", "bss_f64", "bss_flba",
-           "dict_i32", "dict_i64", "dict_f32", "dict_f64", "snappy", "snappy_len", "lz4", "gzip", "zstd", "bitreader"]
+           "dict_i32", "dict_i64", "dict_f32", "dict_f64", "snappy", "snappy_len", "lz4", "gzip", "zstd", "bitreader",
+           "bitunpack", "thrift_prim"]
+
+
+# API variants with NULL out-parameters / NULL arguments (p is otherwise unused by these entry points; the driver
+# decodes the bits): the call must be refused, or - for an optional bytes_consumed - work without it
+NULL_FLAGS = {"delta_i32": [1], "delta_i64": [1], "delta_len": [1, 2, 3], "delta_str": [1, 2, 3], "bss_f32": [1], "bss_f64": [1],
+              "snappy": [1, 2, 3], "lz4": [1, 2, 3], "gzip": [1, 2, 3], "zstd": [1, 2, 3], "snappy_len": [2],
+              "thrift_ph": [1, 2, 3, 4, 5, 6, 7], "thrift_fm": [1, 2, 3, 4, 5, 6, 7],
+              "plain_bool": [1], "plain_i32": [1], "plain_i64": [1], "plain_i96": [1], "plain_f32": [1], "plain_f64": [1], "plain_ba": [1]}
 
 
 def gen_cases(total, rng):
@@ -1159,6 +1238,13 @@ def gen_cases(total, rng):
     for name, fn, share in FAMILIES:
         sub = random.Random(rng.getrandbits(64))
         cases += fn(sub, max(1, int(total * share)))
+    for c in cases:
+        if c.op in NULL_FLAGS and rng.random() < 0.02:
+            c.p = rng.choice(NULL_FLAGS[c.op])
+            c.tag = "nullarg"
+        elif c.op == "rle_levels_pref" and rng.random() < 0.02:
+            c.cap = 0                                   # bytes_consumed = NULL
+            c.tag = "nullarg"
     return cases
 
 
@@ -1421,6 +1507,10 @@ def run(tier):
     rf = gen_repeated_fields(random.Random(vlib.SEED * 139 + 13), tier)
     tie_rf = run_cases(rep, drv, rf, stats)
     flush_violations(rep, stats)
+    # 1e. list counts at the parser's limits
+    lim = gen_count_limits(random.Random(vlib.SEED * 149 + 17), tier)
+    run_cases(rep, drv, lim, stats)
+    flush_violations(rep, stats)
     # 2. generated cases
     total = 300_000 if tier == "quick" else 5_000_000
     chunk = 250_000
@@ -1436,7 +1526,7 @@ def run(tier):
         flush_violations(rep, stats)
         if len(rep.violations) >= 5:
             break
-    rep.cov["calls"] = done + len(corpus) + len(suite) + len(mm) + len(rf)
+    rep.cov["calls"] = done + len(corpus) + len(suite) + len(mm) + len(rf) + len(lim)
     rep.cov["by_entry_point"] = stats["by_op"]
     rep.cov["input_distribution"] = stats["by_tag"]
     rep.cov["ub_reports"] = stats["ub"]
@@ -1477,6 +1567,8 @@ def _tie_line(c):
     if c.data is None or len(c.data) > (2500 if c.tag == "repeated" else TIE_MAX_LEN) or c.count > TIE_MAX_COUNT or c.count < -TIE_MAX_COUNT:
         return None
     op = c.op
+    if (op in NULL_FLAGS and c.p != 0) or (op == "rle_levels_pref" and c.cap == 0):
+        return None                     # NULL-argument variants exist only in the C API
     if op in ("rle_levels", "rle_levels_pref", "rle_all"):
         return "dec", c.line()
     if op.startswith("plain_"):
@@ -1519,7 +1611,7 @@ def _tie_line(c):
     return None
 
 
-TIE = {op: True for op in ALL_OPS if op not in ("rle_stream", "plain_disp", "gzip", "zstd", "bitreader")}
+TIE = {op: True for op in ALL_OPS if op not in ("rle_stream", "plain_disp", "gzip", "zstd", "bitreader", "bitunpack", "thrift_prim")}
 
 
 def tie_ok(c):
